@@ -652,6 +652,11 @@ def _wrap(fn):
                 return fn(case)
         except _Rejected:
             return Outcome(False, None, _labels(case) + ("rejected",), status="rejected")
+        except Violation:
+            raise
+        except Exception as e:  # noqa - re-raised: the runner buckets it as a crash, tags name the class
+            e.vf_tags = _tags(case)
+            raise
         finally:
             _cleanup()
 
@@ -926,13 +931,13 @@ PROP = Prop(
         "expected data always come from a second, identically constructed correction object",
     ],
     subs=[
-        Sub("no_overwrite_leaves_input", _wrap(check_no_overwrite), gen=gen("any"), n=_n(400, 8000), shards=_SH),
-        Sub("same_kind", _wrap(check_same_kind), gen=gen("any"), n=_n(400, 8000), shards=_SH),
-        Sub("data_equals_correct_array", _wrap(check_data), gen=gen("single"), n=_n(400, 8000), shards=_SH),
-        Sub("metadata_is_input_plus_update", _wrap(check_metadata), gen=gen("image"), n=_n(400, 8000), shards=_SH),
-        Sub("overwrite_same_object", _wrap(check_overwrite), gen=gen("any"), n=_n(400, 8000), shards=_SH),
-        Sub("series_equals_per_slice", _wrap(check_series), gen=gen("series"), n=_n(300, 6000), shards=_SH),
-        Sub("neutral_is_identity", _wrap(check_neutral), gen=gen("neutral"), n=_n(400, 8000), shards=_SH),
-        Sub("constructor_chain", _wrap(check_chain), gen=gen_chain, n=_n(300, 6000), shards=_SH),
+        Sub("no_overwrite_leaves_input", _wrap(check_no_overwrite), gen=gen("any"), n=_n(2400, 80000), shards=_SH),
+        Sub("same_kind", _wrap(check_same_kind), gen=gen("any"), n=_n(2400, 80000), shards=_SH),
+        Sub("data_equals_correct_array", _wrap(check_data), gen=gen("single"), n=_n(2400, 80000), shards=_SH),
+        Sub("metadata_is_input_plus_update", _wrap(check_metadata), gen=gen("image"), n=_n(2400, 80000), shards=_SH),
+        Sub("overwrite_same_object", _wrap(check_overwrite), gen=gen("any"), n=_n(2400, 80000), shards=_SH),
+        Sub("series_equals_per_slice", _wrap(check_series), gen=gen("series"), n=_n(1800, 60000), shards=_SH),
+        Sub("neutral_is_identity", _wrap(check_neutral), gen=gen("neutral"), n=_n(2400, 80000), shards=_SH),
+        Sub("constructor_chain", _wrap(check_chain), gen=gen_chain, n=_n(1800, 60000), shards=_SH),
     ],
 )
